@@ -172,6 +172,17 @@ func (p *bprover) condFacts(cond ssa.Value, neg bool) (fs []dfact, ns []dneq, pa
 	}
 	bo, ok := cond.(*ssa.BinOp)
 	if !ok {
+		// a boolean that cannot change between two tests of it -- a boolean parameter, or a field of a record that was
+		// handed in by value (op.withAmount) -- is a 0/1 quantity named by what it is: a second test of it on the other
+		// side contradicts the first, which rules out the corresponding way into a join
+		if name, ok := stableBool(cond); ok {
+			n := "v:bool:" + name
+			if neg {
+				fs = append(fs, dfact{n, "0", 0}) // n <= 0
+			} else {
+				fs = append(fs, dfact{"0", n, -1}) // n >= 1
+			}
+		}
 		return
 	}
 	// parity tests: (x & 1) ==/!= k , (x % 2) ==/!= k
@@ -845,6 +856,44 @@ func (p *bprover) defFacts(s *factSet, goal dfact) {
 				l := p.lenOf(a)
 				s.fs = append(s.fs, dfact{n, l.n, l.k})
 				push(l.n)
+			}
+		}
+		// n = a + b with both operands symbolic: whatever constant bound the facts at hand put on one operand carries
+		// over to the distance between n and the other (end < 0 gives size + end <= size - 1)
+		if bo, isBo := v.(*ssa.BinOp); isBo && (bo.Op == token.ADD || bo.Op == token.SUB) && isSignedInt(bo.Type()) {
+			_, xc := constInt(bo.X)
+			_, yc := constInt(bo.Y)
+			if !xc && !yc {
+				pairs := [][2]ssa.Value{{bo.X, bo.Y}}
+				if bo.Op == token.ADD {
+					pairs = append(pairs, [2]ssa.Value{bo.Y, bo.X})
+				}
+				for _, pr := range pairs {
+					a, b := p.lin(pr[0]), p.lin(pr[1])
+					if a.n == "0" || b.n == "0" {
+						continue
+					}
+					// only the combinations that cannot wrap around: a is non-negative (a length, or known to be) and the
+					// other operand pulls the result towards zero or below
+					aNonNeg := strings.HasPrefix(a.n, "len:") || nonNegValue(pr[0], map[ssa.Value]bool{}, 0)
+					if !aNonNeg {
+						continue
+					}
+					for _, f := range s.fs {
+						if bo.Op == token.ADD && f.a == b.n && f.b == "0" {
+							if ub := f.c + b.k; ub <= 0 {
+								s.fs = append(s.fs, dfact{n, a.n, a.k + ub}) // b <= ub <= 0: n = a + b <= a + ub
+								push(a.n)
+							}
+						}
+						if bo.Op == token.SUB && f.a == "0" && f.b == b.n {
+							if lb := -f.c + b.k; lb >= 0 {
+								s.fs = append(s.fs, dfact{n, a.n, a.k - lb}) // b >= lb >= 0: n = a - b <= a - lb
+								push(a.n)
+							}
+						}
+					}
+				}
 			}
 		}
 		if bo, isBo := v.(*ssa.BinOp); isBo && bo.Op == token.ADD {
@@ -2128,7 +2177,14 @@ func (c *C) proveSite(p *bprover, in ssa.Instruction) (bool, string) {
 			return true, ""
 		}
 		if !p.ProveLE(zero, i, 0, in) {
-			return false, "lower bound: cannot show " + canon(idx) + " >= 0"
+			// k*v + c with k >= 1, c >= 0 is non-negative when v is (lengths stay far below the point where k*v wraps)
+			lowerOK := false
+			if k, v, cst, ok := scaledIndex(idx); ok && k >= 1 && k <= 16 && cst >= 0 && p.ProveLE(zero, p.lin(v), 0, in) {
+				lowerOK = true
+			}
+			if !lowerOK {
+				return false, "lower bound: cannot show " + canon(idx) + " >= 0"
+			}
 		}
 		if !p.ProveLE(i, up, -1, in) {
 			// parallel slices: x and the slice the index ranges over are two results of one call that fills both in lockstep
@@ -3828,4 +3884,62 @@ func (c *C) enumRange(t types.Type) (lo, hi int64, ok bool) {
 	}
 	c.enumMemo[nt] = r
 	return lo, hi, closed
+}
+
+// stableBool: v is a boolean whose value is fixed for the whole activation of the function: a parameter, or a field of a
+// struct that was passed by value (a parameter of struct type, read directly or through the local copy go/ssa makes of
+// it when no store other than the initial one touches that copy).
+func stableBool(v ssa.Value) (string, bool) {
+	if !isBoolType(v.Type()) {
+		return "", false
+	}
+	switch x := v.(type) {
+	case *ssa.Parameter:
+		return paramCanon(x), true
+	case *ssa.Field:
+		if p, ok := x.X.(*ssa.Parameter); ok {
+			if st, ok := p.Type().Underlying().(*types.Struct); ok {
+				return paramCanon(p) + "." + st.Field(x.Field).Name(), true
+			}
+		}
+	case *ssa.UnOp:
+		if x.Op != token.MUL {
+			return "", false
+		}
+		fa, ok := x.X.(*ssa.FieldAddr)
+		if !ok {
+			return "", false
+		}
+		al, ok := fa.X.(*ssa.Alloc)
+		if !ok || al.Referrers() == nil {
+			return "", false
+		}
+		var init ssa.Value
+		for _, r := range *al.Referrers() {
+			switch y := r.(type) {
+			case *ssa.Store:
+				if y.Addr != ssa.Value(al) || init != nil {
+					return "", false
+				}
+				init = y.Val
+			case *ssa.FieldAddr:
+				if y.Referrers() != nil {
+					for _, rr := range *y.Referrers() {
+						if _, isLoad := rr.(*ssa.UnOp); !isLoad {
+							if _, isDbg := rr.(*ssa.DebugRef); !isDbg {
+								return "", false // a field is written or its address escapes
+							}
+						}
+					}
+				}
+			case *ssa.DebugRef:
+			default:
+				return "", false
+			}
+		}
+		if p, ok := init.(*ssa.Parameter); ok {
+			return paramCanon(p) + "." + fieldName(fa), true
+		}
+	}
+	return "", false
 }
